@@ -99,3 +99,33 @@ func VerifFilterParams(level int8, sharpness uint8, useLFDelta bool, ref0, mode0
 	}
 	return
 }
+
+// VerifPredict runs one reference intra predictor on a block of size n (4, 8 or 16) whose border is
+// given: tl = top-left sample, top = n samples above (n+4 for 4x4: the top-right overhang), left = n
+// samples to the left. mode is the reference's mode number (predDC.. predDCTopLeft).
+func VerifPredict(n int, mode int, tl uint8, top []uint8, left []uint8) []uint8 {
+	z := &Decoder{}
+	y, x := 1, 8
+	z.ybr[y-1][x-1] = tl
+	for i, v := range top {
+		z.ybr[y-1][x+i] = v
+	}
+	for j, v := range left {
+		z.ybr[y+j][x-1] = v
+	}
+	switch n {
+	case 4:
+		predFunc4[mode](z, y, x)
+	case 8:
+		predFunc8[mode](z, y, x)
+	case 16:
+		predFunc16[mode](z, y, x)
+	}
+	out := make([]uint8, n*n)
+	for j := 0; j < n; j++ {
+		for i := 0; i < n; i++ {
+			out[j*n+i] = z.ybr[y+j][x+i]
+		}
+	}
+	return out
+}
